@@ -5,7 +5,10 @@ package srv
 import (
 	"fmt"
 	"net"
+	"os"
+	"strconv"
 	"sync"
+	"sync/atomic"
 	"time"
 
 	"github.com/coredhcp/coredhcp/config"
@@ -58,17 +61,30 @@ func GenSt(t *rapid.T) StCase {
 
 var startMu sync.Mutex // one real server at a time in this process (the relay port 67 is shared)
 
+// portSeq counts the ports this process has handed out
+var portSeq atomic.Int64
+
+// freePort picks a UDP port for a server the case is about to start. The server's sockets allow
+// port reuse, so two harness processes that were given the same port by the kernel would both
+// bind it and share its datagrams - and a reply of the other process's server would be taken for
+// one of ours. Each process therefore draws from a range of its own (by process id) and only
+// takes ports that nobody holds at that moment.
 func freePort(network, host string) int {
-	a, err := net.ResolveUDPAddr(network, net.JoinHostPort(host, "0"))
-	if err != nil {
-		return 0
+	base := 10000 + (os.Getpid()%500)*100
+	for try := 0; try < 100; try++ {
+		port := base + int(portSeq.Add(1)%100)
+		a, err := net.ResolveUDPAddr(network, net.JoinHostPort(host, strconv.Itoa(port)))
+		if err != nil {
+			return 0
+		}
+		c, err := net.ListenUDP(network, a)
+		if err != nil {
+			continue
+		}
+		c.Close()
+		return port
 	}
-	c, err := net.ListenUDP(network, a)
-	if err != nil {
-		return 0
-	}
-	defer c.Close()
-	return c.LocalAddr().(*net.UDPAddr).Port
+	return 0
 }
 
 // ExecSt runs one case
